@@ -19,4 +19,7 @@ HWAccepted == IF TLCGet(1) = NLines THEN PrintT(<<"TRACE-ACCEPTED", NLines>>)
               ELSE PrintT(<<"TRACE-REJECTED-AT-LINE", TLCGet(1) + 1, Log[TLCGet(1) + 1]>>) /\ FALSE
 
 HasField(r, f) == f \in DOMAIN r
+
+\* name a conjunct so that a rejected line says WHICH requirement failed
+Chk(name, cond) == IF cond THEN TRUE ELSE PrintT(<<"CHECK-FAILED", name>>) /\ FALSE
 =============================================================================
